@@ -2,7 +2,7 @@
    Only statements, `exact`, Print Assumptions and non-vacuity examples. *)
 From Coq Require Import List Arith Bool ZArith Ring Lia.
 From PV Require Import Base.Index Base.Sum Np.Array Model.Sparse Model.Repr Model.C09Als Model.C09Loop
-  Proofs.C09Identity Proofs.C09Monotone Proofs.C09Scaling Proofs.C09LoopProofs.
+  Proofs.C09Identity Proofs.C09Monotone Proofs.C09Scaling Proofs.C09LoopProofs Proofs.C09Reported.
 Import ListNotations.
 
 Section C09.
@@ -30,6 +30,21 @@ Theorem C09_fit_identity_sum : forall (s : shape) (X : idx -> V) (K : ktensor V)
   = vsub (normsq_den v0 vadd vmul s (den_k v0 v1 vadd vmul K))
          (vadd (innerprod_den v0 vadd vmul s X (den_k v0 v1 vadd vmul K)) (innerprod_den v0 vadd vmul s X (den_k v0 v1 vadd vmul K))).
 Proof. exact (fit_identity_sum V v0 v1 vadd vmul vsub vopp Vring). Qed.
+
+(* (1') the same identity INSIDE the executable sweep model: after the update of mode n, the value computed from the SAVED mttkrp
+   (st_P, taken before mode n was overwritten), the new factor and the new weights is the residual of the new state's model —
+   this is cp_als.py:237-250 with n = dimorder[-1] (als_sweep it (ds ++ [n]) st = als_update it (als_sweep it ds st) n) *)
+Theorem C09_reported_residual : forall (solve : @matrix V -> @matrix V -> @matrix V) (scale : nat -> @matrix V -> list V * @matrix V)
+    (R : nat) (X : idx -> V) (s : shape) (it : nat) (st : als_state V) (n : nat),
+  let mkX := fun U m => mttkrp_mat v0 v1 vadd vmul s X U m R in
+  st_wf V R s st -> n < length s ->
+  length (st_w (als_update v0 v1 vadd vmul mkX solve scale R it st n)) = R ->
+  nrows (nth n (st_U (als_update v0 v1 vadd vmul mkX solve scale R it st n)) []) = nth n s 0 ->
+  let st' := als_update v0 v1 vadd vmul mkX solve scale R it st n in
+  let ip := iprod_saved v0 vadd vmul R (nth n s 0) (st_w st') (nth n (st_U st') []) (fun j r => mget v0 (st_P st') j r) in
+  vsub (vadd (normsq_den v0 vadd vmul s X) (normsq_den v0 vadd vmul s (st_den V v0 v1 vadd vmul st'))) (vadd ip ip)
+  = resid_den v0 vadd vmul vsub s X (st_den V v0 v1 vadd vmul st').
+Proof. exact (reported_residual V v0 v1 vadd vmul vsub vopp Vring). Qed.
 
 (* (2a) why Y = Hadamard product of the Grams: the mode-n MTTKRP of the Kruskal model itself is  a . Y *)
 Theorem C09_mttkrp_of_model : forall (As : list (@matrix V)) (n R : nat) (a : nat -> nat -> V) (j t : nat),
@@ -170,6 +185,7 @@ End C09book.
 
 Print Assumptions C09_fit_identity.
 Print Assumptions C09_fit_identity_sum.
+Print Assumptions C09_reported_residual.
 Print Assumptions C09_mttkrp_of_model.
 Print Assumptions C09_ls_step_identity.
 Print Assumptions C09_normal_eq.
@@ -216,4 +232,48 @@ Proof.
   apply (C09_ls_step_monotone Z 0%Z 1%Z Z.add Z.mul Z.sub Z.opp Zth Z.le Z.le_refl
            (fun x y H => ltac:(lia))
            (fun x y Hx Hy => Z.add_nonneg_nonneg x y Hx Hy) Z.square_nonneg X As 0%nat 1%nat a' a); [cbn; auto|exact NE].
+Qed.
+
+(* non-vacuity of (2c)/(2d)/(3): the contracts of the oracles are satisfiable — a concrete 2x2 rank-1 update of mode 0 over Z with an
+   exact solve and two different column-scaling oracles (weights 1 and -1); the hypotheses of C09_monotone and C09_scaling_indep
+   hold and both runs denote the same model *)
+Example C09_contract_example :
+  let s := [2; 2]%nat in
+  let X := den_dense 0%Z (mkDense s [1; 3; 2; 1]%Z) in
+  let mk := fun (U : list (@matrix Z)) (n : nat) => mttkrp_mat 0%Z 1%Z Z.add Z.mul s X U n 1%nat in
+  let solve := fun (Y P : @matrix Z) => map (map (fun x => Z.div x (mget 0%Z Y 0%nat 0%nat))) P in
+  let scale1 := fun (_ : nat) (A : @matrix Z) => ([1%Z], A) in
+  let scale2 := fun (_ : nat) (A : @matrix Z) => ([(-1)%Z], map (map Z.opp) A) in
+  let st := mkAls [1%Z] [ [[7]; [7]]; [[1]; [2]] ]%Z [] in
+  st_wf Z 1%nat s st /\
+  iter_contract Z 0%Z 1%Z Z.add Z.mul mk solve scale1 1%nat X s 1%nat [0%nat] st /\
+  iter_hyps Z 0%Z 1%Z Z.add Z.mul 1%nat X X mk mk solve solve scale1 scale2 s 1%nat [0%nat] st st /\
+  st_den Z 0%Z 1%Z Z.add Z.mul (als_iter 0%Z 1%Z Z.add Z.mul mk solve scale1 1%nat 1%nat [0%nat] st) [1; 1]%nat = 2%Z /\
+  st_den Z 0%Z 1%Z Z.add Z.mul (als_iter 0%Z 1%Z Z.add Z.mul mk solve scale2 1%nat 1%nat [0%nat] st) [1; 1]%nat = 2%Z.
+Proof.
+  intros s X mk solve scale1 scale2 st.
+  assert (NE : forall sc : nat -> @matrix Z -> list Z * @matrix Z,
+             normal_eq 0%Z 1%Z Z.add Z.mul s X 0%nat (st_U st) 1%nat
+               (fun j r => mget 0%Z (solve (ymat 0%Z 1%Z Z.add Z.mul 0%nat (st_U st) 1%nat) (mk (st_U st) 0%nat)) j r)).
+  { intros _ j t Hj Ht. cbn in Hj. destruct t as [|t]; [|inversion Ht as [|? H]; inversion H].
+    destruct j as [|[|j]]; [vm_compute; reflexivity | vm_compute; reflexivity |].
+    exfalso. do 2 apply Nat.succ_lt_mono in Hj. inversion Hj. }
+  assert (C1 : update_contract Z 0%Z 1%Z Z.add Z.mul mk solve scale1 1%nat X s 0%nat st 0%nat).
+  { split; [cbn; lia|]. split; [exact (NE scale1)|]. split; [reflexivity|]. split; [reflexivity|].
+    intros j r. cbn [fst snd scale1].
+    destruct j as [|[|[|j]]]; destruct r as [|[|r]]; vm_compute; try reflexivity;
+      repeat (match goal with |- context [match ?x with _ => _ end] => destruct x end); reflexivity. }
+  assert (C2 : update_contract Z 0%Z 1%Z Z.add Z.mul mk solve scale2 1%nat X s 0%nat st 0%nat).
+  { split; [cbn; lia|]. split; [exact (NE scale2)|]. split; [reflexivity|]. split; [reflexivity|].
+    intros j r. cbn [fst snd scale2].
+    destruct j as [|[|[|j]]]; destruct r as [|[|r]]; vm_compute; try reflexivity;
+      repeat (match goal with |- context [match ?x with _ => _ end] => destruct x end); reflexivity. }
+  split; [split; reflexivity|]. split; [exact (conj I (conj C1 I))|]. split.
+  - split; [exact I|]. split; [exact C1|]. split; [exact C2|].
+    split; [exists (fun _ => 1%Z); intros r Hr; destruct r as [|r]; [reflexivity|lia]|].
+    split; [exists (fun _ => (-1)%Z); intros r Hr; destruct r as [|r]; [reflexivity|lia]|].
+    split; [|exact I].
+    intros b Hb r Hr. destruct r as [|r]; [|lia]. specialize (Hb 0%nat ltac:(lia)). vm_compute in Hb.
+    destruct (b 0%nat); try discriminate; reflexivity.
+  - split; vm_compute; reflexivity.
 Qed.
